@@ -208,8 +208,20 @@ fn check_attrs(input: &AttrIn, case: &mut Case) -> Result<(), Fail> {
 // ---- 3. long attribute strings
 
 fn long_strategy(_t: Tier) -> BoxedStrategy<String> {
-    vec(select(vec!['k', 'v', 'x', ';', '=', '\u{13b}', '\u{13d}', '\u{ff1b}', '\u{ff1d}', 'é', ' ', '\u{23b}', '\u{103d}']), 0..40)
-        .prop_map(|v| v.into_iter().collect::<String>())
+    (
+        vec(select(vec!['k', 'v', 'x', ';', '=', '\u{13b}', '\u{13d}', '\u{ff1b}', '\u{ff1d}', 'é', ' ', '\u{23b}', '\u{103d}', '😀']), 0..40),
+        // optional padding that moves the interesting part across the 254-byte piece boundaries
+        prop_oneof![3 => Just(0usize), 2 => (0usize..5, 0usize..8).prop_map(|(k, d)| (k * 254 + 250 + d).saturating_sub(8))],
+        select(vec!['p', 'é']),
+    )
+        .prop_map(|(v, pad, padc)| {
+            let mut s = String::new();
+            while s.len() < pad {
+                s.push(padc);
+            }
+            s.extend(v);
+            s
+        })
         .boxed()
 }
 
@@ -230,8 +242,8 @@ fn ref_long(s: &str) -> HashMap<String, Option<String>> {
 
 fn check_long(s: &String, case: &mut Case) -> Result<(), Fail> {
     case.nontrivial = s.chars().any(|c| (c as u32) > 0xff && matches!((c as u32) & 0xff, 0x3b | 0x3d));
-    if s.len() > 255 {
-        return Ok(());
+    if s.len() > 254 {
+        case.class("multi-piece");
     }
     let txt = lib("TXT::try_from(&str)", || TXT::try_from(s.as_str()))?.map_err(|e| Fail::new("c19:split-failed", format!("{:?}", e)))?;
     let got = lib("TXT::long_attributes", || txt.long_attributes())?.map_err(|e| Fail::new("c19:long-failed", format!("{:?}", e)))?;
@@ -245,7 +257,8 @@ fn check_long(s: &String, case: &mut Case) -> Result<(), Fail> {
 fn enum_lengths(_t: Tier, shard: usize, n: usize, f: &mut dyn FnMut((u16, u8)) -> bool) {
     let mut i = 0;
     for len in 0..=300u16 {
-        for fill in [b'a', 0xffu8, 0x00, b'='] {
+        // fill 1 = the string is delimited by double quotes, fill 2 = by single quotes, fill 3 = starts with a backslash
+        for fill in [b'a', 0xffu8, 0x00, b'=', 1, 2, 3] {
             i += 1;
             if mine(i, shard, n) && !f((len, fill)) {
                 return;
@@ -258,7 +271,25 @@ fn check_length(input: &(u16, u8), case: &mut Case) -> Result<(), Fail> {
     let (len, fill) = *input;
     let len = len as usize;
     case.nontrivial = (250..=260).contains(&len);
-    let bytes = vec![fill; len];
+    let bytes = match fill {
+        1 | 2 => {
+            let q = if fill == 1 { b'"' } else { b'\'' };
+            let mut b = vec![b'q'; len];
+            if len >= 1 {
+                b[0] = q;
+                b[len - 1] = q;
+            }
+            b
+        }
+        3 => {
+            let mut b = vec![b'b'; len];
+            if len >= 1 {
+                b[0] = b'\\';
+            }
+            b
+        }
+        f => vec![f; len],
+    };
     let want_ok = len <= 255;
     let c = lib("CharacterString::new", || CharacterString::new(&bytes).map(|c| c.verif_bytes().to_vec()))?;
     ensure!(c.is_ok() == want_ok, "c19:construct", "CharacterString::new({} bytes).is_ok() = {}", len, c.is_ok());
